@@ -1013,6 +1013,12 @@ func ruleLK4(c *Ctx) {
 			elem := cell.Type().(*types.Pointer).Elem()
 			graphish := mentionsGraphish(elem)
 			derived := false
+			if _, isFunc := elem.Underlying().(*types.Signature); isFunc && graphish {
+				// a function value is code; what matters is the data the closures it can hold have captured
+				if clean, decided := c.funcCellCapturesNoSnapshot(cell, loaders); decided && clean {
+					graphish = false
+				}
+			}
 			var outside []*ssa.Store
 			for _, st := range cellStores(cell) {
 				if st.Parent() != cb && !isNested(st.Parent(), cb) {
@@ -1522,4 +1528,69 @@ func ruleLK8(c *Ctx) {
 		c.check(n <= 1, c.Name(e), "lock-acquisitions-per-path", c.FnPos(e), fmt.Sprintf("at most %d lock acquisition on any path", n),
 			fmt.Sprintf("up to %s lock acquisitions on one path (%s): the later one can fail with `lock busy` after the earlier section committed", fmtCount(n), strings.Join(sites[e], "; ")))
 	}
+}
+
+// funcCellCapturesNoSnapshot: every function value the func-typed cell can hold is a module function or a closure
+// none of whose captured variables carries graph/task/event data (by type or by derivation from a loader).
+// decided=false when a stored value cannot be resolved to function values.
+func (c *Ctx) funcCellCapturesNoSnapshot(cell *ssa.Alloc, loaders map[*ssa.Function]bool) (clean, decided bool) {
+	var vals []ssa.Value
+	for _, st := range cellStores(cell) {
+		vals = append(vals, st.Val)
+	}
+	if len(vals) == 0 {
+		return false, false
+	}
+	seen := map[ssa.Value]bool{}
+	for d := 0; len(vals) > 0 && d < 64; d++ {
+		v := vals[0]
+		vals = vals[1:]
+		if seen[v] {
+			continue
+		}
+		seen[v] = true
+		switch x := v.(type) {
+		case *ssa.Function:
+		case *ssa.MakeClosure:
+			for _, b := range x.Bindings {
+				bc := cellOf(b)
+				if bc == nil {
+					if mentionsGraphish(b.Type()) {
+						return false, true
+					}
+					continue
+				}
+				el := bc.Type().(*types.Pointer).Elem()
+				if _, isFunc := el.Underlying().(*types.Signature); isFunc {
+					for _, st := range cellStores(bc) {
+						vals = append(vals, st.Val)
+					}
+					continue
+				}
+				if mentionsGraphish(el) {
+					return false, true
+				}
+				for _, st := range cellStores(bc) {
+					for ld := range loaders {
+						if valueDerivesFromCallTo(st.Val, ld) {
+							return false, true
+						}
+					}
+				}
+			}
+		case *ssa.Parameter:
+			args := c.argValues(x.Parent(), paramIndex(x))
+			if len(args) == 0 {
+				return false, false
+			}
+			vals = append(vals, args...)
+		case *ssa.Const:
+			if !x.IsNil() {
+				return false, false
+			}
+		default:
+			return false, false
+		}
+	}
+	return true, true
 }
